@@ -56,6 +56,38 @@ pub(crate) fn c_init(tok: *const LlgTokenizer) -> LlgConstraintInit {
     init
 }
 
+/// the V2 constructor with further end-of-sequence tokens (llg_new_tokenizer_v2)
+pub(crate) fn c_tokenizer_v2(ws: &[Vec<u8>], eos: u32, extra: &[u32], trie: *const llguidance::toktrie::TokTrie) -> *mut LlgTokenizer {
+    let lens: Vec<u32> = ws.iter().map(|w| w.len() as u32).collect();
+    let bytes: Vec<u8> = ws.iter().flat_map(|w| w.clone()).collect();
+    let no_slices: [*const std::os::raw::c_char; 1] = [std::ptr::null()];
+    let mut init: LlgTokenizerInitV2 = unsafe { std::mem::zeroed() };
+    init.struct_size = std::mem::size_of::<LlgTokenizerInitV2>();
+    init.vocab_size = ws.len() as u32;
+    init.tok_eos = eos;
+    init.token_lens = lens.as_ptr();
+    init.token_bytes = bytes.as_ptr();
+    init.tokenize_fn = if trie.is_null() { None } else { Some(greedy_cb) };
+    init.use_approximate_greedy_tokenize_fn = trie.is_null();
+    init.tokenize_user_data = trie as *const std::os::raw::c_void;
+    init.slices = no_slices.as_ptr();
+    init.tok_eos_extra = extra.as_ptr();
+    init.tok_eos_extra_count = extra.len() as u32;
+    let mut err = vec![0i8; 256];
+    unsafe { llg_new_tokenizer_v2(&init, err.as_mut_ptr() as *mut _, err.len()) }
+}
+
+/// a third of the sessions: one token below the primary EOS becomes a second end-of-sequence token
+fn second_eos(rng: &mut Rng, ws: &mut [Vec<u8>], eos: u32) -> Option<u32> {
+    if rng.chance(1, 3) && eos > 16 {
+        let x = rng.range(14, eos as usize - 1);
+        ws[x] = b"\xFF<|end2|>".to_vec();
+        Some(x as u32)
+    } else {
+        None
+    }
+}
+
 /// vocabulary of a given size around a word boundary: single bytes of the grammar alphabet first
 fn sized_vocab(rng: &mut Rng, size: usize) -> (Vec<Vec<u8>>, u32) {
     let mut ws: Vec<Vec<u8>> = vec![];
@@ -93,10 +125,11 @@ fn words_of(ptr: *const u32, n: usize) -> Vec<u32> {
 pub fn constraint_case(rng: &mut Rng, out: &mut Out) {
     let g = gen_gram(rng);
     let size = boundary_size(rng, 3).max(24);
-    let (ws, eos) = sized_vocab(rng, size);
+    let (mut ws, eos) = sized_vocab(rng, size);
     let v = ws.len();
     let lark = g.to_lark();
-    let env = make_env(&ws, eos, false);
+    let extra_eos = second_eos(rng, &mut ws, eos);
+    let env = make_env2(&ws, eos, extra_eos, false);
     // Rust reference
     let mut f = match ParserFactory::new(&env, InferenceCapabilities::default(), &[]) {
         Ok(f) => f,
@@ -109,7 +142,13 @@ pub fn constraint_case(rng: &mut Rng, out: &mut Out) {
     };
     let mut rc = Constraint::new(p);
     // C side
-    let tok = c_tokenizer(&ws, eos);
+    let tok = match extra_eos {
+        Some(x) => {
+            out.count("sessions_with_second_eos", 1);
+            c_tokenizer_v2(&ws, eos, &[x], std::ptr::null())
+        }
+        None => c_tokenizer(&ws, eos),
+    };
     if tok.is_null() {
         out.violation("llg_new_tokenizer failed", lark.clone());
         return;
@@ -253,15 +292,23 @@ pub fn constraint_case(rng: &mut Rng, out: &mut Out) {
 pub fn matcher_case(rng: &mut Rng, out: &mut Out) {
     let g = gen_gram(rng);
     let size = boundary_size(rng, 3).max(24);
-    let (ws, eos) = sized_vocab(rng, size);
+    let (mut ws, eos) = sized_vocab(rng, size);
     let v = ws.len();
     let lark = g.to_lark();
     // half of the cases with a canonical tokenizer on both sides (only then are there fast-forward tokens)
     let canonical = rng.chance(1, 2);
-    let env = make_env(&ws, eos, canonical);
+    let extra_eos = second_eos(rng, &mut ws, eos);
+    let env = make_env2(&ws, eos, extra_eos, canonical);
     let Ok(mut rm) = new_matcher(&env, &lark, &[]) else { return };
     let trie_box: Box<llguidance::toktrie::TokTrie> = Box::new(env.tok_trie().clone());
-    let tok = c_tokenizer_with(&ws, eos, if canonical { &*trie_box as *const _ } else { std::ptr::null() });
+    let trie_ptr: *const llguidance::toktrie::TokTrie = if canonical { &*trie_box as *const _ } else { std::ptr::null() };
+    let tok = match extra_eos {
+        Some(x) => {
+            out.count("sessions_with_second_eos", 1);
+            c_tokenizer_v2(&ws, eos, &[x], trie_ptr)
+        }
+        None => c_tokenizer_with(&ws, eos, trie_ptr),
+    };
     let init = c_init(tok);
     let ctype = CString::new("lark").unwrap();
     let clark = CString::new(lark.clone()).unwrap();
